@@ -101,6 +101,7 @@ def edits_of(p, which):
 def case_job(arg):
     placement, producer, timing, edit, store, populated, two_mod, idx = arg[:8]
     load_form = arg[8] if len(arg) > 8 else "assign"
+    producer_entry = arg[9] if len(arg) > 9 else "eval"
     rep = core.Report("C09")
     rep.evaluations = 1
     p0 = build("c9_%d" % idx, placement, producer, timing, two_mod, load_form)
@@ -118,12 +119,24 @@ def case_job(arg):
                 {"v": 0, "entry": P, "new_process": True}, {"v": 0, "entry": R}]
     else:  # never
         hist = [{"v": 0, "new_process": True}, {"v": 1, "how": "reload"}]
+    if producer_entry == "direct":
+        # the producer is evaluated on its own, as the top-level call (a data function called directly, or a
+        # top-level dds.keep): its own blob may then already be stored when it is evaluated again
+        for st in hist:
+            if st.get("entry") == P:
+                st["entry"] = ids["prod"]
+                if producer == "data":
+                    st["style"] = "call"
+                else:
+                    st["style"] = "keep"
+                    st["keep_path"] = PATH
+                    st["args_src"] = "(1,)"
     if store == "memory":
         for i, st in enumerate(hist):
             st["new_process"] = i == 0
             if i > 0 and "how" not in st:
                 st["how"] = "reload"
-    case = progs._case("load:%s/%s/%s/%s/%s" % (placement, producer, timing, edit, load_form), [p0, p1], {(0, 1): d}, hist, store)
+    case = progs._case("load:%s/%s/%s/%s/%s/%s" % (placement, producer, timing, edit, load_form, producer_entry), [p0, p1], {(0, 1): d}, hist, store)
     obs = e1.run_case(case)
     if obs["failed"]:
         rep.inconclusive.append(obs["failed"])
@@ -196,6 +209,8 @@ def run(tier, seed):
                             if tier == "quick" and timing == "never" and edit != "prod_const":
                                 continue
                             jobs.append((placement, producer, timing, edit, store, populated, idx % 2 == 0, idx, "assign"))
+                            if timing == "earlier_eval" and edit != "unrelated":
+                                jobs.append((placement, producer, timing, edit, store, populated, idx % 2 == 0, idx * 10 + 9, "assign", "direct"))
                             # the other syntactic positions of the load expression
                             for fi, form in enumerate(gen.LOAD_FORMS[1:]):
                                 if edit == "prod_const" and store == "local" and timing in ("same_before", "earlier_eval", "same_after") and (tier != "quick" or (idx + fi) % 2 == 0 or placement == "kept"):
@@ -219,7 +234,8 @@ def replay(payload):
     name = c["name"].split(":", 1)[1]
     placement, producer, timing, edit = name.split("/")[:4]
     load_form = (name.split("/") + ["assign"])[4]
+    producer_entry = (name.split("/") + ["assign", "eval"])[5]
     idx = int(c["versions"][0]["pkg"].split("_")[1])
     populated = any(st.get("entry") for st in c["history"][:1]) and timing == "same_after"
-    rep.merge(case_job((placement, producer, timing, edit, c["store"], populated, len(c["versions"][0]["modules"]) == 2, idx, load_form)))
+    rep.merge(case_job((placement, producer, timing, edit, c["store"], populated, len(c["versions"][0]["modules"]) == 2, idx, load_form, producer_entry)))
     return rep
